@@ -304,6 +304,24 @@ func c07Jobs(x *mon.Ctx, base *world.World) []*world.Case {
 		w.Qe.Levels = mk(ls...)
 		emit(w, "levels-3-4", name(ls...)+fmt.Sprint("#", i), "")
 	}
+	// the level that decides carries a tcbDate in another format (date only, other zone, empty, missing, not a date): it still decides
+	for di, d := range []string{"2024-03-13", "2024-03-13T00:00:00+02:00", "2024-03-13 00:00:00", "13/03/2024", "", "<omit>", "not a date", "0000-00-00T00:00:00Z", "2024-03-13T00:00:00.123456789Z"} {
+		date := d
+		if d == "" {
+			date = " "
+		}
+		for st := 1; st < len(world.Statuses); st++ {
+			if (di+st)%2 == 0 {
+				continue
+			}
+			w := base.Clone()
+			w.Qe.Levels = []world.IsvLevel{{Isv: uint32(base.P.QeIsvSvn), Status: world.Statuses[st], TcbDate: date}, {Isv: 0, Status: "UpToDate"}}
+			emit(w, "deciding-level-with-odd-tcbdate", fmt.Sprintf("%q/%s", d, world.Statuses[st]), "reject")
+		}
+		w := base.Clone()
+		w.Qe.Levels = []world.IsvLevel{{Isv: uint32(base.P.QeIsvSvn) + 1, Status: "Revoked", TcbDate: date}, {Isv: uint32(base.P.QeIsvSvn), Status: "UpToDate", TcbDate: date}}
+		emit(w, "deciding-level-with-odd-tcbdate", fmt.Sprintf("%q/UpToDate-second", d), "")
+	}
 	// a level without a tcbStatus member is not UpToDate
 	for i, ls := range [][]world.IsvLevel{
 		{{Isv: uint32(base.P.QeIsvSvn), NoStatus: true}},
@@ -453,6 +471,7 @@ func c07(x *mon.Ctx) {
 	x.Require("attributes-bit-hidden-by-mask", 128, 0, 128)
 	x.Require("mrsigner-bit", 0, 256, 256)
 	x.Require("level-without-status", 0, 6, 6)
+	x.Require("deciding-level-with-odd-tcbdate", 0, 27, 36)
 	x.Require("unsigned-member-completes-signed-identity", 0, 30, 30)
 	x.Require("message-isvsvn-wider-than-signed", 0, 6, 6)
 	x.Require("levels-1", 2, 19, 21)
